@@ -1,5 +1,8 @@
 //! Code for inserting elements and the entry pattern.
 
+use std::sync::atomic::AtomicUsize;
+use std::sync::atomic::Ordering;
+
 use super::*;
 
 /// A mutable view into a single entry in a map, which may either be vacant or occupied.
@@ -23,7 +26,7 @@ pub struct VacantEntry<'a, P, T> {
 /// present on the tree.
 pub struct OccupiedEntry<'a, P, T> {
     pub(super) node: &'a mut Node<P, T>,
-    pub(super) count: &'a mut usize, // the number of elements in the map, updated on `remove`.
+    pub(super) count: &'a AtomicUsize, // the number of elements in the map, updated on `remove`.
     pub(super) prefix: P, // needed to replace the prefix on the thing if we perform insert.
 }
 
@@ -257,7 +260,7 @@ where
             DirectionForInsert::Reached => {
                 // increment the count, as node.value will be `None`. We do it here as we borrow
                 // `map` mutably in the next line.
-                self.map.count += 1;
+                self.map.table.inc_count();
                 let node = &mut self.map.table[self.idx];
                 node.prefix = self.prefix;
                 debug_assert!(node.value.is_none());
@@ -416,7 +419,7 @@ impl<P, T> OccupiedEntry<'_, P, T> {
     /// # fn main() {}
     /// ```
     pub fn remove(self) -> T {
-        *self.count -= 1;
+        self.count.fetch_sub(1, Ordering::Relaxed);
         self.node.value.take().unwrap()
     }
 }
